@@ -23,14 +23,14 @@ class Div(Exception):
         self.cls, self.field, self.expected, self.observed = cls, field, expected, observed
 
 
-def create(act, gname):
+def create(act, gname, src="SRC1"):
     g = GEOMS[gname]
     F, T, asc, lo = act["F"], act["T"], act["asc"], act["lo"]
     fmin = g["f0"] + lo * g["df"]
     fch1 = fmin if asc else fmin + (F - 1) * g["df"]
     data = np.array([[1000.0 * (i + 1) + lo + j for j in range(F)] for i in range(T)])
     if act["route"] == "sizes":
-        fr = stg.Frame(fchans=F, tchans=T, df=g["df"], dt=g["dt"], fch1=fch1, ascending=asc, t_start=T0, source_name="SRC1", seed=1)
+        fr = stg.Frame(fchans=F, tchans=T, df=g["df"], dt=g["dt"], fch1=fch1, ascending=asc, t_start=T0, source_name=src, seed=1)
         fr.data = data
     else:
         fr = stg.Frame.from_data(g["df"], g["dt"], fch1, asc, data, seed=1)
@@ -64,7 +64,10 @@ def compare(exp, obs, cls, what):
         raise Div(cls, "%s.source_name" % what, exp["src"], obs["src"])
 
 
-def check_file(path, exp, gname):
+_count = [0]
+
+
+def check_file(path, exp, gname, light=False):
     """Independent reader + the stand-alone helpers on a written file (exp: the frame projection TLC says was saved)."""
     g = GEOMS[gname]
     wf = Waterfall(path)
@@ -92,7 +95,10 @@ def check_file(path, exp, gname):
         raise Div("C03", "file.source_name", exp["src"], src)
     if abs(Time(h["tstart"], format="mjd").unix - T0) > 1e-4:
         raise Div("C03", "file.tstart", T0, Time(h["tstart"], format="mjd").unix)
-    # stand-alone helpers
+    # stand-alone helpers (every file of the random behaviours, every fourth file of the exhaustive families)
+    _count[0] += 1
+    if light and _count[0] % 4:
+        return
     fs = waterfall_utils.get_fs(path)
     ts = waterfall_utils.get_ts(path)
     if len(fs) != F or len(ts) != T:
@@ -137,7 +143,7 @@ def replay(beh, gname, workdir, tag):
             got_st = "ok"
             try:
                 if name == "Create":
-                    objs.append(create(act, gname))
+                    objs.append(create(act, gname, st["objs"][-1]["src"]))
                 elif name == "GetWaterfall":
                     objs[act["o"] - 1].get_waterfall()
                 elif name == "Copy":
@@ -155,6 +161,22 @@ def replay(beh, gname, workdir, tag):
                 elif name == "ShiftTs":
                     fo = objs[act["o"] - 1]
                     fo.ts = fo.ts + 5 * g["dt"]
+                elif name == "Rebind":
+                    fo = objs[act["o"] - 1]
+                    if k % 3 == 0:
+                        fo.data = fo.data + 250000
+                    elif k % 3 == 1:
+                        new = np.array(fo.data, dtype=float) + 250000
+                        fo.zero_data()
+                        fo.data = new
+                    else:
+                        pp = os.path.join(workdir, "%s_%d.npy" % (tag, k))
+                        np.save(pp, np.array(fo.data, dtype=float) + 250000)
+                        fo.load_npy(pp)
+                        os.remove(pp)
+                elif name == "LoadT":
+                    p = files[act["file"]]
+                    objs.append(stg.Frame(waterfall=Waterfall(p, t_start=act["a"], t_stop=act["b"])))
                 elif name == "Mutate":
                     objs[act["o"] - 1].data += 500000
                 elif name == "Slice":
@@ -192,7 +214,7 @@ def replay(beh, gname, workdir, tag):
                         fr.save_h5(path)
                     files[act["file"]] = path
                     try:
-                        check_file(path, st["res"]["file"], gname)
+                        check_file(path, st["res"]["file"], gname, light=tag.startswith("f"))
                     except Div as d:
                         note(d, k)
                 elif name == "LoadSub":
@@ -215,16 +237,19 @@ def replay(beh, gname, workdir, tag):
                 raise Div(cls + "|C12" if name in ("Copy", "Pickle") else cls, "%s.status" % name, exp_st, got_st if got_st == "ok" else "%s: %s" % (got_st, msg))
             if len(objs) != len(st["objs"]):
                 raise RuntimeError("adapter out of sync with the spec")
+            for i, (w, o) in enumerate(zip(st["wf"], objs)):
+                if w and o.waterfall is None:
+                    note(Div("C12|C03", "%s.obj%d.waterfall_lost" % (name, i + 1), "the frame keeps its Waterfall", "waterfall is None"), k)
             for i, (e, o) in enumerate(zip(st["objs"], objs)):
                 newest = (i == len(objs) - 1)
                 if name in ("Slice", "Dedrift") and newest:
                     cls = "C17"
-                elif name == "Load" and newest:
+                elif name in ("Load", "LoadT") and newest:
                     cls = "C03"
                 elif name in ("Copy", "Pickle") and newest:
                     cls = "C12|C03"
-                elif name == "Mutate":
-                    cls = "C17|C12"
+                elif name in ("Mutate", "Rebind"):
+                    cls = "C17|C12|C03"
                 else:
                     cls = "C03|C17"
                 try:
